@@ -44,7 +44,7 @@ def last_alias_state(out):
         return {}
     last = blocks[-1]
     d = {}
-    for m in re.finditer(r"/\\ (\w+) = (.+)", last):
+    for m in re.finditer(r"^(?:/\\ )?(\w+) = (.+)$", last, re.M):
         d[m.group(1)] = m.group(2).strip()
     return d
 
